@@ -33,7 +33,7 @@ var spell = map[string][]string{
 	"id.u2":     {"é", "ña", "Ωmega", "aß"},
 	"id.u3":     {"日本", "aℓ", "ᚠ", "ⅷ", "℘x"},
 	"id.u4":     {"𝒳", "a𐐀", "𠮷"},
-	"id.ucont":  {"e\u0301", "a\u0663", "a\u203F", "a\u0903", "a\u00B7", "x\u1369"},
+	"id.ucont":  {"e\u0301", "a\u0663", "a\u203F", "a\u0903", "a\u00B7", "x\u1369", "a\u2118", "x\u212E", "k\u309B"}, // (the last three: Other_ID_Start characters continuing a name)
 	"id.esc4":   {`\u0061`, `a\u0062c`, `\u00e9x`, `\u0041\u0042`},
 	"id.escb":   {`\u{61}`, `x\u{1D4B3}`, `\u{000061}b`},
 	"id.zw":     {"a\u200Db", "a\u200C", "x\u200C\u200Dy"},
